@@ -16,19 +16,19 @@ import (
 
 // State is the per-path abstract state (cloned at forks).
 type State struct {
-	mem    map[int]*Obj
-	symMem map[string]Val // stores through symbolic pointers
-	nextID int
-	errs   map[int]int8 // 1 nil, 2 non-nil
-	facts  []string     // ordered, "+F" / "-F"
-	factSet map[string]bool
-	events []Event
+	mem      map[int]*Obj
+	symMem   map[string]Val // stores through symbolic pointers
+	nextID   int
+	errs     map[int]int8 // 1 nil, 2 non-nil
+	facts    []string     // ordered, "+F" / "-F"
+	factSet  map[string]bool
+	events   []Event
 	atomAttr map[string]*AtomAttr
-	uf     map[string]string // union-find over canonical names (equalities)
-	notes  []string          // undecided constructs met on this path
-	loops  []LoopRec
-	steps  int
-	eqs    []Lin // linear forms known to be zero on this path
+	uf       map[string]string // union-find over canonical names (equalities)
+	notes    []string          // undecided constructs met on this path
+	loops    []LoopRec
+	steps    int
+	eqs      []Lin // linear forms known to be zero on this path
 }
 
 type AtomAttr struct {
@@ -38,9 +38,9 @@ type AtomAttr struct {
 
 type LoopRec struct {
 	NFacts int // facts established before the loop was entered
-	Tag   string
-	Phis  []PhiRec
-	Fn    *ssa.Function
+	Tag    string
+	Phis   []PhiRec
+	Fn     *ssa.Function
 }
 
 type PhiRec struct {
@@ -203,19 +203,19 @@ type loopInfo struct {
 }
 
 type Explorer struct {
-	M        *Model
-	P        *Program
-	touches  map[*ssa.Function]bool
-	statePkgs map[string]bool // packages holding state-touching code (keepers, servers, their utils): helpers there are inlined
-	loops    map[*ssa.Function]*loopInfo
-	outcomes []*Outcome
-	pathCap  int
-	maxDepth int
-	cut      bool
-	frameSeq int
+	M             *Model
+	P             *Program
+	touches       map[*ssa.Function]bool
+	statePkgs     map[string]bool // packages holding state-touching code (keepers, servers, their utils): helpers there are inlined
+	loops         map[*ssa.Function]*loopInfo
+	outcomes      []*Outcome
+	pathCap       int
+	maxDepth      int
+	cut           bool
+	frameSeq      int
 	validatorMode bool // inline nested Validate()/ValidateBasic() methods (validator exploration)
-	curTag   string
-	Stats    struct{ Paths, Forks, Inlined, Steps int }
+	curTag        string
+	Stats         struct{ Paths, Forks, Inlined, Steps int }
 }
 
 func NewExplorer(m *Model) *Explorer {
